@@ -140,7 +140,7 @@ pub fn random_la(rng: &mut Rng, slots: &[S], depth: usize, binder: &mut S) -> Tm
             }
         };
     }
-    match rng.weighted(&[5, 5, 2, 3, 2, 1]) {
+    match rng.weighted(&[5, 5, 2, 3, 2, 2]) {
         5 => {
             let x = *binder;
             *binder += 1;
